@@ -19,7 +19,7 @@ logger.addHandler(logging.NullHandler())
 DATE_FORMAT = "%Y.%m.%d %H:%M:%S"
 
 
-def spawn_rng(rgen):
+def spawn_rng(rgen, job_nr=None):
     """
     Reimplementation of np.random.Generator.spawn() for numpy <= 1.24.4.
 
@@ -30,13 +30,23 @@ def spawn_rng(rgen):
 
     Parameters:
     rgen (np.random.Generator): The input random number generator.
+    job_nr (int): If given, re-create the child number `job_nr` of the input
+        RNG (used to resume a job after a restart) instead of spawning the
+        next one.
 
     Returns:
     np.random.Generator: A new random number generator instance.
     """
-    return type(rgen)(
-        type(rgen.bit_generator)(seed=rgen.bit_generator._seed_seq.spawn(1)[0])
-    )
+    seed_seq = rgen.bit_generator._seed_seq
+    if job_nr is None:
+        child = seed_seq.spawn(1)[0]
+    else:
+        child = np.random.SeedSequence(
+            entropy=seed_seq.entropy,
+            spawn_key=seed_seq.spawn_key + (int(job_nr),),
+            pool_size=seed_seq.pool_size,
+        )
+    return type(rgen)(type(rgen.bit_generator)(seed=child))
 
 
 class REPEX_state:
@@ -65,6 +75,7 @@ class REPEX_state:
             "keep_traj_fnames", []
         )
         # set rng
+        self._rgen_restored = False
         if "restarted_from" in config["current"]:
             self.set_rgen()
         else:
@@ -195,7 +206,10 @@ class REPEX_state:
 
         # lock and print the picked traj and ens
         pat_nums = [str(i.path_number) for i in inp_trajs]
-        self.locked.append((list(ens_nums), pat_nums))
+        # also record the job's place in the spawn sequence, so that a
+        # restart can hand the resumed job the same random streams
+        job_nr = self.rgen.bit_generator._seed_seq.n_children_spawned
+        self.locked.append((list(ens_nums), pat_nums, job_nr))
         if self.printing():
             self.print_pick(ens_nums, pat_nums, self.cworker)
         picked = {}
@@ -225,15 +239,20 @@ class REPEX_state:
         In case a crash, we pick lock locked from previous simulation.
         """
         if not self.locked0:
-            if "restarted_from" in self.config["current"]:
+            if (
+                "restarted_from" in self.config["current"]
+                and not self._rgen_restored
+            ):
                 # get the same pick() as pre-restart. Need to set it again
                 # because current self.rgen was used for calculating self.prob.
+                # Only once: later picks must continue the sequence.
                 self.set_rgen()
+                self._rgen_restored = True
             return self.pick()
 
         enss = []
         trajs = []
-        enss0, trajs0 = self.locked0.pop(0)
+        enss0, trajs0, *job_nr = self.locked0.pop(0)
         logger.info("pick locked!")
         for ens, traj in zip(enss0, trajs0):
             enss.append(ens - self._offset)
@@ -242,12 +261,13 @@ class REPEX_state:
             self.lock(ens)
             trajs.append(self._trajs[ens])
         # the resumed job is in flight again, keep it on record
-        self.locked.append((list(enss), list(trajs0)))
+        self.locked.append((list(enss), list(trajs0), *job_nr))
         if self.printing():
             self.print_pick(tuple(enss), tuple(trajs0), self.cworker)
         picked = {}
 
-        child_rng = spawn_rng(self.rgen)
+        # a resumed job gets the streams it had before the restart
+        child_rng = spawn_rng(self.rgen, *job_nr[:1])
         for ens_num, inp_traj in zip(enss, trajs):
             ens_pick = self.ensembles[ens_num + 1]
             ens_pick["rgen"] = spawn_rng(child_rng)
@@ -402,9 +422,11 @@ class REPEX_state:
 
     def set_rgen(self):
         """Set numpy random generator state from restart."""
+        # jobs issued so far: the completed ones and those still in flight
         seed_sequence = np.random.SeedSequence(
             entropy=self.config["simulation"]["seed"],
-            n_children_spawned=self.cstep,
+            n_children_spawned=self.cstep
+            + len(self.config["current"].get("locked", [])),
         )
         self.rgen = default_rng(seed_sequence)
         self.rgen.bit_generator.state = self.config["current"]["rng_state"]
@@ -741,7 +763,11 @@ class REPEX_state:
         locked_ep = []
         for tup in self.locked:
             locked_ep.append(
-                ([int(tup0 + self._offset) for tup0 in tup[0]], tup[1])
+                (
+                    [int(tup0 + self._offset) for tup0 in tup[0]],
+                    tup[1],
+                    *tup[2:],
+                )
             )
         self.config["current"]["locked"] = locked_ep
         self.config["current"]["rng_state"] = self.rgen.bit_generator.state
